@@ -41,6 +41,8 @@ def _accepted_types(fa: FA):
 
 
 def check(ck):
+    from .memo import check_new_memo_tables
+    ck.run(check_new_memo_tables, ck, "C04.M1", ('reference', 'base', 'serialization'))
     R1, R2, R3 = "C04.R1", "C04.R2", "C04.R3"
     ck.rule(R1, "dispatch agreement: what validate_args admits is accepted by the encoder; every type tag and every "
                 "JSON-level type the encoder emits is handled by the decoder and by the canonical JSON writer", 6)
